@@ -42,6 +42,17 @@ package payment
 //@ ensures [refused-no-trace] !(authOK && nonceOK) ==> effects == old(effects) && p.NonceStore.nonce == old(p.NonceStore.nonce)
 //@                              && store.sameCredit(p.AccountStore) && p.AccountStore.linked == old(p.AccountStore.linked) && p.AccountStore.acct == old(p.AccountStore.acct)
 //@ ensures [zero-sum] {C01}   p.AccountStore.total == old(p.AccountStore.total)
+//@ requires store.regInv(p.AccountStore) && store.linkInv(p.AccountStore)
+//@ ensures [linked-ids-are-verified-identities] {C15} store.linkInv(p.AccountStore) && p.AccountStore.reg == old(p.AccountStore.reg)
+
+// Account (unsigned): the balance of a wallet and the 12-character short ids of the nodes linked to it. Cutting the
+// short id out needs every linked id to be at least that long: linkInv, kept by AddNode above (only registered nodes are
+// linked) on top of regInv, kept by the pool's connect (only verified identities are registered).
+//@ func (*PaymentService).Account
+//@ property C15
+//@ safety on
+//@ requires store.linkInv(p.AccountStore)
+//@ ensures [response] err == nil ==> result != nil
 
 //@ pure spendableOf(s store.BalanceStore, a string) int = s.acredit[store.Account(a)] + s.adeposit[store.Account(a)]
 
